@@ -112,9 +112,11 @@ class Check:
         self.violations.append((sig, what, path))
         return True
 
+    stop_on_duplicates = True
+
     def enough(self):
         """stop exploring once plenty of violations are in hand (a badly broken tree must not cost hours)"""
-        if len(self.violations) + self.extra.get("duplicate_violations", 0) >= 40:
+        if len(self.violations) + (self.extra.get("duplicate_violations", 0) if self.stop_on_duplicates else 0) >= 40:
             self.extra["stopped_early_after_violations"] = len(self.violations)
             self.exhaustive = False
             return True
